@@ -20,7 +20,8 @@ Proof.
                    (r_local (rs_ref rs)) vs None []) as [[found aerrs]|]; [|discriminate].
   destruct found as [[sf stf]|].
   - rewrite app_nil_r in H. destruct aerrs as [|a aerrs'].
-    + destruct (tail_walk tbl stf ((n, l) :: rest)); inversion H; subst.
+    + destruct (tail_walk tbl stf ((n, l) :: rest)) as [tgt| |]; [destruct (path_empty (sc_cn tgt))| |]; inversion H; subst.
+      * right. split; [discriminate | reflexivity].
       * left. split; [reflexivity | eexists; reflexivity].
       * right. split; [discriminate | reflexivity].
     + inversion H; subst. right. split; [discriminate | reflexivity].
